@@ -40,6 +40,93 @@ pub enum PolytopeStatus {
     Error(String),
 }
 
+
+/// Verification hook (only compiled with `--cfg affinitree_verif`): a thread-local fault plan
+/// consulted at the top of [`Polytope::solve_linprog`]. Counts LP calls and can replace the
+/// result of selected calls by an error, "unbounded", or a displaced witness.
+#[cfg(affinitree_verif)]
+pub mod verif_hook {
+    use std::cell::RefCell;
+
+    use super::PolytopeStatus;
+
+    #[derive(Clone, Debug, PartialEq)]
+    pub enum Fault {
+        Error,
+        Unbounded,
+        /// add the given offset to every coordinate of an optimal witness
+        Shift(f64),
+    }
+
+    #[derive(Default)]
+    struct Plan {
+        active: bool,
+        calls: usize,
+        faults: Vec<(usize, Fault)>,
+        fired: Vec<(usize, Fault, bool)>,
+    }
+
+    thread_local! {
+        static PLAN: RefCell<Plan> = RefCell::new(Plan::default());
+    }
+
+    /// Install a plan: `faults` lists (0-based call position, fault). Resets the call counter.
+    pub fn install(faults: Vec<(usize, Fault)>) {
+        PLAN.with(|p| {
+            let mut p = p.borrow_mut();
+            p.active = true;
+            p.calls = 0;
+            p.faults = faults;
+            p.fired.clear();
+        });
+    }
+
+    /// Remove the plan; returns (number of LP calls seen, faults that were injected with a flag
+    /// telling whether they changed the genuine answer).
+    pub fn uninstall() -> (usize, Vec<(usize, Fault, bool)>) {
+        PLAN.with(|p| {
+            let mut p = p.borrow_mut();
+            p.active = false;
+            (p.calls, std::mem::take(&mut p.fired))
+        })
+    }
+
+    pub fn take_fault() -> Option<(usize, Fault)> {
+        PLAN.with(|p| {
+            let mut p = p.borrow_mut();
+            if !p.active {
+                return None;
+            }
+            let call = p.calls;
+            p.calls += 1;
+            p.faults
+                .iter()
+                .find(|(pos, _)| *pos == call)
+                .map(|(pos, f)| (*pos, f.clone()))
+        })
+    }
+
+    pub fn suspended<T>(f: impl FnOnce() -> T) -> T {
+        let was = PLAN.with(|p| std::mem::replace(&mut p.borrow_mut().active, false));
+        let r = f();
+        PLAN.with(|p| p.borrow_mut().active = was);
+        r
+    }
+
+    pub fn distort(fault: (usize, Fault), genuine: PolytopeStatus) -> PolytopeStatus {
+        let (pos, kind) = fault;
+        let out = match (&kind, &genuine) {
+            (Fault::Error, _) => PolytopeStatus::Error("injected fault".to_string()),
+            (Fault::Unbounded, _) => PolytopeStatus::Unbounded,
+            (Fault::Shift(d), PolytopeStatus::Optimal(w)) => PolytopeStatus::Optimal(w.mapv(|x| x + d)),
+            (Fault::Shift(_), other) => other.clone(),
+        };
+        let changed = out != genuine;
+        PLAN.with(|p| p.borrow_mut().fired.push((pos, kind, changed)));
+        out
+    }
+}
+
 /// # LP solving
 impl Polytope {
     pub fn remove_redundant_row_constraints(&self) -> Result<Polytope, String> {
@@ -101,6 +188,11 @@ impl Polytope {
     /// s.t. self.mat @ x <= self.bias
     #[cfg(feature = "minilp")]
     pub fn solve_linprog(&self, coeffs: Array1<f64>, _verbose: bool) -> PolytopeStatus {
+        #[cfg(affinitree_verif)]
+        if let Some(fault) = verif_hook::take_fault() {
+            let genuine = verif_hook::suspended(|| self.solve_linprog(coeffs.clone(), _verbose));
+            return verif_hook::distort(fault, genuine);
+        }
         let problem = self.as_linprog(coeffs);
         let pb = problem.solver;
         let vars = problem.vars;
